@@ -253,11 +253,19 @@ func c13Run(t *rapid.T) {
 	// ---- universe: a family of programs
 	nprog := rapid.IntRange(2, 5).Draw(t, "nprog")
 	var progs []c13Prog
+	// swarm: some universes are heavy on templates that fail to parse, drawn
+	// from a few kinds of syntax error (a failed parse must leave no trace)
+	brokenPct := 8
+	var brokenKinds []int
+	if uni(t, "brokenheavy", 10) == 0 {
+		brokenPct = 70
+		brokenKinds = rapid.SliceOfN(rapid.IntRange(0, len(brokenTags)-1), 2, 3).Draw(t, "brokenkinds")
+	}
 	for len(progs) < nprog {
-		if len(progs) > 0 && rapid.IntRange(0, 9).Draw(t, "nearcopy") < 4 {
-			base := progs[rapid.IntRange(0, len(progs)-1).Draw(t, "base")]
+		if len(progs) > 0 && uni(t, "nearcopy", 10) < 4 {
+			base := progs[uni(t, "base", len(progs))]
 			text := base.text
-			switch rapid.IntRange(0, 8).Draw(t, "variation") {
+			switch uni(t, "variation", 9) {
 			case 5:
 				text = strings.ReplaceAll(text, "\n", "\r\n") // line-ending variant
 			case 6:
@@ -301,7 +309,7 @@ func c13Run(t *rapid.T) {
 				continue
 			}
 		}
-		p := genProgram(t, genOpts{probes: true, mapRegions: true, pureMapBody: true, sideEffects: true, failing: true, failPct: 20, probePct: 20, maxPieces: 5})
+		p := genProgram(t, genOpts{probes: true, mapRegions: true, pureMapBody: true, sideEffects: true, failing: true, failPct: 20, probePct: 20, maxPieces: 5, brokenPct: brokenPct, brokenKinds: brokenKinds})
 		progs = append(progs, c13Prog{p: p, text: p.Main})
 	}
 	// partial names are unique per program because fresh() counters restart:
@@ -398,9 +406,9 @@ func c13Run(t *rapid.T) {
 
 	nops := rapid.IntRange(3, 40).Draw(t, "nops")
 	for op := 0; op < nops; op++ {
-		i := rapid.IntRange(0, nprog-1).Draw(t, "prog")
-		j := rapid.IntRange(0, nvar-1).Draw(t, "variant")
-		kind := rapid.IntRange(0, 15).Draw(t, "op")
+		i := uni(t, "prog", nprog)
+		j := uni(t, "variant", nvar)
+		kind := uni(t, "op", 16)
 		switch kind {
 		case 0:
 			cacheOn = !cacheOn
@@ -412,7 +420,7 @@ func c13Run(t *rapid.T) {
 			hist = append(hist, "reset cache (cold)")
 			count("c13_op_resetcache", 1)
 		case 2:
-			mp := simrt.MapPolicy(rapid.IntRange(0, 3).Draw(t, "maporder"))
+			mp := simrt.MapPolicy(uni(t, "maporder", 4))
 			seed := rapid.Uint64().Draw(t, "mapseed")
 			simrt.SetMapOrder(mp, seed)
 			count("maporder_"+mp.String(), 1)
@@ -466,7 +474,7 @@ func c13Run(t *rapid.T) {
 			if len(cands) == 0 {
 				break
 			}
-			l := cands[rapid.IntRange(0, len(cands)-1).Draw(t, "live")]
+			l := cands[uni(t, "live", len(cands))]
 			rt := newRT(l.prog, j)
 			if kind == 9 {
 				hist = append(hist, fmt.Sprintf("re-Exec kept template of prog %d (%s) with data %d", l.prog, l.how, j))
@@ -492,7 +500,7 @@ func c13Run(t *rapid.T) {
 			count("c13_op_buffalo", 1)
 		case 12:
 			var sizes []int
-			switch rapid.IntRange(0, 2).Draw(t, "chunking") {
+			switch uni(t, "chunking", 3) {
 			case 0:
 				sizes = []int{1}
 			case 1:
